@@ -1,5 +1,6 @@
 (* C14/Proofs.v — the reader delivers exactly the messages that were sent, for every split of the stream. *)
-From ZV Require Import Base.Bytes Base.Res C14.Model C14.Spec.
+From ZV Require Import Base.Bytes Base.Res C14.Model C14.Spec C14.Fields.
+From ZV Require C11.Model C11.Invariants.
 From Coq Require Import Lia ZifyBool ZifyN ZifyNat.
 Open Scope N_scope.
 
@@ -137,23 +138,19 @@ Proof.
   rewrite beq_l, beq_B. unfold lenN. cbn [length skipn u32_of].
   destruct (bn b0 =? 108) eqn:E1.
   - replace (bn b0 =? 66) with false in H by lia. cbn [orb negb] in H.
-    rewrite land_248 by apply bn_lt.
     match type of H with (if ?c then _ else _) = _ => destruct c eqn:Hc end; [|discriminate].
     inversion H; subst f; clear H. cbn [f_big f_header_end f_total].
     replace (N.of_nat 12 <? 12) with false by lia.
     unfold u32le.
-    match goal with |- context [negb ?c] => replace c with true by lia end. cbn [negb].
     match goal with |- context [negb ?c] => replace c with true by lia end. cbn [negb].
     match goal with |- context [if ?c then Err EVariant else _] => replace c with false by lia end.
     eexists; split; [reflexivity|]. unfold total_len, header_len, MIN_MESSAGE_SIZE. cbn [ph_big ph_fields_len ph_body_len].
     repeat split; try lia. rewrite round8_pad8. lia.
   - destruct (bn b0 =? 66) eqn:E2; [|discriminate]. cbn [orb negb] in H.
-    rewrite land_248 by apply bn_lt.
     match type of H with (if ?c then _ else _) = _ => destruct c eqn:Hc end; [|discriminate].
     inversion H; subst f; clear H. cbn [f_big f_header_end f_total].
     replace (N.of_nat 12 <? 12) with false by lia.
     unfold u32le.
-    match goal with |- context [negb ?c] => replace c with true by lia end. cbn [negb].
     match goal with |- context [negb ?c] => replace c with true by lia end. cbn [negb].
     match goal with |- context [if ?c then Err EVariant else _] => replace c with false by lia end.
     eexists; split; [reflexivity|]. unfold total_len, header_len, MIN_MESSAGE_SIZE. cbn [ph_big ph_fields_len ph_body_len].
@@ -453,23 +450,17 @@ Proof.
     rewrite E1 in Hn. now apply Hn.
 Qed.
 
-(* the driver's field parser satisfies the hypothesis of receive_no_panic *)
-Lemma fields_loop_no_panic : forall fuel big pos l acc q, fields_loop big fuel pos l acc <> Panic q.
+(* the driver's field parser (C11's model of message::Fields) satisfies the hypothesis of receive_no_panic *)
+Lemma c11_fields_no_panic big b q : c11_fields big b <> Panic q.
 Proof.
-  induction fuel as [|fuel IH]; intros big pos l acc q; destruct l as [|b l]; cbn [fields_loop]; try discriminate.
-  repeat (match goal with
-          | |- (match ?x with _ => _ end) <> _ => destruct x
-          | |- (if ?x then _ else _) <> _ => destruct x
-          end; try discriminate; try apply IH).
-Qed.
-Lemma std_fields_no_panic big b q : std_fields big b <> Panic q.
-Proof.
-  unfold std_fields. destruct (length b <? 4)%nat; [discriminate|].
-  destruct (negb (lenN (skipn 4 b) =? u32_of big b)); [discriminate|]. apply fields_loop_no_panic.
+  unfold c11_fields.
+  pose proof (C11.Invariants.de_fields_no_panic (if big then C11.Model.BE else C11.Model.LE) (repeat x00 12 ++ b)) as H.
+  destruct (C11.Model.de_fields (if big then C11.Model.BE else C11.Model.LE) (repeat x00 12 ++ b)) as [[fs n]|e|p];
+    [discriminate | destruct e; discriminate | exfalso; now apply (H p)].
 Qed.
 Theorem receive_no_panic_std : forall (o : oracle) (seq : N) (st : rstate) (p : panic),
-  snd (receive_message std_fields o seq st) <> Panic p.
-Proof. intros. apply receive_no_panic. intros. apply std_fields_no_panic. Qed.
+  snd (receive_message c11_fields o seq st) <> Panic p.
+Proof. intros. apply receive_no_panic. intros. apply c11_fields_no_panic. Qed.
 
 Theorem limit : forall (pf : parse_fields) (o : oracle) (seq : N) (st st1 : rstate) (hdr : bytes) (f : list fd) (ph : phdr),
   phase1 o st = (st1, Ok (hdr, f)) -> parse_primary hdr = Ok ph -> MAX_MESSAGE_SIZE < total_len ph ->
@@ -524,14 +515,14 @@ Definition w_plain : smsg := {| sm_bytes := hx "6c010001000000000100000000000000
 Definition w_fd (h : fd) : smsg :=
   {| sm_bytes := hx "6c0100010000000002000000080000000901750001000000"; sm_fds := [h] |}.
 
-Lemma w_plain_valid : valid_msg std_fields w_plain.
+Lemma w_plain_valid : valid_msg c11_fields w_plain.
 Proof. apply valid_msgb_ok. vm_compute. reflexivity. Qed.
-Lemma w_fd_valid h : valid_msg std_fields (w_fd h).
+Lemma w_fd_valid h : valid_msg c11_fields (w_fd h).
 Proof. apply valid_msgb_ok. vm_compute. reflexivity. Qed.
 
 Example former_witness :
-  Forall (valid_msg std_fields) [w_plain; w_fd 7] /\
-  fst (run_reader std_fields (bytes_oracle (fun _ => 5)) (wire [w_plain; w_fd 7]) 17) = expected [w_plain; w_fd 7].
+  Forall (valid_msg c11_fields) [w_plain; w_fd 7] /\
+  fst (run_reader c11_fields (bytes_oracle (fun _ => 5)) (wire [w_plain; w_fd 7]) 17) = expected [w_plain; w_fd 7].
 Proof.
   split; [repeat constructor; [apply w_plain_valid | apply w_fd_valid] | vm_compute; reflexivity].
 Qed.
@@ -541,8 +532,8 @@ Qed.
 Example frames_instance :
   let ms := [w_fd 7; w_plain; w_fd 9] in
   let k := fun c : nat => match c with 0%nat => 3 | 1%nat => 1 | 2%nat => 7 | _ => N.of_nat c end in
-  Forall (valid_msg std_fields) ms /\
-  fst (run_reader std_fields (bytes_oracle k) (wire ms) 30) = expected ms /\
+  Forall (valid_msg c11_fields) ms /\
+  fst (run_reader c11_fields (bytes_oracle k) (wire ms) 30) = expected ms /\
   expected ms = [OMsg {| m_bytes := sm_bytes (w_fd 7); m_fds := [7]; m_seq := 1 |};
                  OMsg {| m_bytes := sm_bytes w_plain; m_fds := []; m_seq := 2 |};
                  OMsg {| m_bytes := sm_bytes (w_fd 9); m_fds := [9]; m_seq := 3 |}; OErr EIo].
@@ -553,9 +544,18 @@ Proof.
   - vm_compute. reflexivity.
 Qed.
 
+(* unknown flag bits (0x89) and an unknown header field (code 0x20, a string) are tolerated: such a message is valid
+   and is delivered like any other (fixes 0d33c3d1, 9e1c6e56) *)
+Definition w_tolerant : smsg :=
+  {| sm_bytes := hx "6c01890100000000030000000b0000002001730002000000686900" ++ hx "0000000000"; sm_fds := [] |}.
+Example tolerant_instance :
+  valid_msg c11_fields w_tolerant /\
+  fst (run_reader c11_fields (bytes_oracle (fun _ => 3)) (wire [w_tolerant; w_plain]) 5) = expected [w_tolerant; w_plain].
+Proof. split; [apply valid_msgb_ok; vm_compute; reflexivity | vm_compute; reflexivity]. Qed.
+
 (* a header that declares a 128 MiB + 1 byte body *)
 Example limit_instance :
   let st := {| arb := hx "6c010001010000080100000000000000" ++ hx "aabb"; arfds := []; strm := []; calls := 0 |} in
   exists ph, parse_primary (firstn 16 (arb st)) = Ok ph /\ MAX_MESSAGE_SIZE < total_len ph /\
-             fst (receive_message std_fields (fun _ => AEof) 1 st) = set_arb (hx "aabb") st.
+             fst (receive_message c11_fields (fun _ => AEof) 1 st) = set_arb (hx "aabb") st.
 Proof. cbv zeta. eexists. split; [vm_compute; reflexivity|]. split; vm_compute; reflexivity. Qed.
